@@ -137,3 +137,36 @@ Definition nlri_from_slice (afi safi : Z) (d : list Z) : option (fnlri * Z) :=
   match family_kind afi safi with Some (k, a) => dec_fnlri k a d | None => None end.
 Definition nlri_serialize (afi safi : Z) (v : fnlri) : option (list Z) :=
   match family_kind afi safi with Some (k, _) => enc_fnlri k v | None => None end.
+
+(* ---- the NLRI loop of MP_REACH_NLRI / MP_UNREACH_NLRI: optional ADD-PATH identifier, one NLRI, advance by its Len() *)
+Fixpoint dec_nlri_list (fuel : nat) (ap : bool) (k : kind) (alen : Z) (d : list Z) : option (list (Z * fnlri)) :=
+  match d with
+  | [] => Some []
+  | _ =>
+      match fuel with
+      | O => None
+      | S f =>
+          match (if ap then match take 4 d with Some (i, r) => Some (de32 i, r) | None => None end else Some (0, d)) with
+          | None => None
+          | Some (id, d1) =>
+              match dec_fnlri k alen d1 with
+              | None => None
+              | Some (v, n) =>
+                  if blen d1 <? n then None
+                  else match dec_nlri_list f ap k alen (skipn (Z.to_nat n) d1) with
+                       | Some l => Some ((id, v) :: l)
+                       | None => None
+                       end
+              end
+          end
+      end
+  end.
+Fixpoint enc_nlri_list (ap : bool) (k : kind) (l : list (Z * fnlri)) : option (list Z) :=
+  match l with
+  | [] => Some []
+  | (id, v) :: r =>
+      match enc_fnlri k v, enc_nlri_list ap k r with
+      | Some b, Some t => Some ((if ap then be32 id else []) ++ b ++ t)
+      | _, _ => None
+      end
+  end.
